@@ -473,15 +473,41 @@ def evaluate_cases(chk, cases, log=print):
     outs = []
     nontriv = set()
     n_err = 0
+    import signal
+
+    class CaseTimeout(Exception):
+        pass
+
+    def _alarm(signum, frame):
+        raise CaseTimeout('case exceeded its time limit')
+
+    can_alarm = hasattr(signal, 'SIGALRM')
+    n_timeouts = 0
     for i, case in enumerate(cases):
+        if n_timeouts >= 3:
+            # the implementation keeps hanging: do not run the remaining cases
+            cases = cases[:i]
+            break
         try:
-            out = chk.run_impl(case)
+            if can_alarm:
+                signal.signal(signal.SIGALRM, _alarm)
+                signal.alarm(int(os.environ.get('VERIF_CASE_TIMEOUT', getattr(chk, 'case_timeout', 120))))
+            try:
+                out = chk.run_impl(case)
+            finally:
+                if can_alarm:
+                    signal.alarm(0)
+        except CaseTimeout as e:
+            n_timeouts += 1
+            out = {'__exception__': 'CaseTimeout: %s (the implementation did not finish)' % e, '__tb__': '', '__timeout__': True}
+            n_err += 1
         except Exception as e:  # harness bug or implementation crash: treated as correspondence failure
             out = {'__exception__': '%s: %s' % (type(e).__name__, e), '__tb__': traceback.format_exc()[-1500:]}
             n_err += 1
         outs.append(out)
         if isinstance(out, dict) and '__exception__' in out:
-            failures.append(Failure('agree', None, case, out, 'implementation driver raised: ' + out['__exception__']))
+            failures.append(Failure('py' if out.get('__timeout__') else 'agree', None, case, out,
+                                    'implementation driver raised: ' + out['__exception__']))
             continue
         for clause, msg in chk.py_check(case, out):
             failures.append(Failure('py', chk.classify(case, out, clause), case, out, '%s: %s' % (clause, msg)))
